@@ -64,7 +64,12 @@ def family(tier):
     if tier == "thorough":
         F["two_lists_cross"] = HDR + "a = [1]\nb = [2]\nwhile True:\n" + RD + "    a.append(b[0])\n    b.append(a[0])\n    a.remove(a[0])\n    b.remove(b[0])\n    mon.write(a[0] + b[0])\n"
         F["append_in_nested_loop"] = HDR + "xs = []\nwhile True:\n    for i in range(2):\n        xs.append(i)\n    xs.remove(0)\n    xs.remove(1)\n    mon.write(len(xs))\n"
-    return [(f"mem/{k}", v) for k, v in F.items()]
+    out = [(f"mem/{k}", v) for k, v in F.items()]
+    # list manipulations (append of an own element, swaps/rotations of whole lists, remove with duplicates) in every
+    # block context
+    from .. import skeletons as sk
+    out += [("mem/ctx/" + oid[4:], src) for oid, src in sk.ctx_family(tier, table=sk.CTX_LIST_STMTS)]
+    return out
 
 
 def monitor(events, dev, host_events=None):
